@@ -203,7 +203,8 @@ CHECKS = {
         "technique": "rapid property-based testing with generated fault sequences; expected deviations observed independently through the OS and compared with the parsed wounds file and the fail-fast verdict",
         "level_text": ("Generated builds + 0-4 damages (bit flips at first/last byte of a block or of the file, truncation/extension around block "
                        "boundaries, emptied/deleted entries, content in an expected-empty file, kind swaps incl. subtree-hiding ones, retargeted "
-                       "symlinks, three bytes changed so that the block keeps its rolling hash). In a quarter of the cases the signature is not the directly computed one but read back "
+                       "symlinks, three bytes changed so that the block keeps its rolling hash, contiguous ranges xor-ed over several blocks). A second stage puts 1-2 scrambled "
+                       "ranges of up to 150 blocks into a 66-150 block file - more than the 64 blocks (4 MiB) one aggregated wound may hold. In a quarter of the cases the signature is not the directly computed one but read back "
                        "(pwr.ReadSignature) from the signature stream a diff wrote. An independent observer (Lstat/ReadFile per signed entry) lists deviations. Oracles, both directions: deviating => "
                        "error or >=1 wound + HasWounds, every differing block offset inside a FILE wound of that index, shorter/longer/missing files "
                        "and deviating dirs/symlinks named by a wound, every wound well-formed (known kind, index in range, 0<=start<=end); "
@@ -212,9 +213,11 @@ CHECKS = {
         "rule": ("rapid draws (tree, damage sequence). Non-trivial: a deviating directory whose damage includes a flip at a block-boundary class or "
                  "a length change crossing a block boundary. Distinct: SHA-1 of the spec."),
         "assumptions": [],
-        "required_classes": {"quick": ["dir:identical", "dir:deviates", "damage:hides-subtree", "damage:length-change-crossing-block-boundary", "damage:flip-at-block-boundary-class"],
+        "required_classes": {"quick": ["dir:identical", "dir:deviates", "damage:hides-subtree", "damage:length-change-crossing-block-boundary", "damage:flip-at-block-boundary-class",
+                                       "damage:same-weak-hash", "damage:contiguous-2..64-blocks", "damage:contiguous->64-blocks"],
                              "thorough": ["dir:identical", "dir:deviates", "damage:hides-subtree", "damage:length-change-crossing-block-boundary", "damage:flip-at-block-boundary-class", "damage:retarget"]},
-        "stages": [rapid("wounds", "TestProp", 28800, 768000, qs=16, ts=16, qt=600, tt=5400)],
+        "stages": [rapid("wounds", "TestProp", 28800, 768000, qs=16, ts=16, qt=600, tt=5400),
+                   rapid("longrun", "TestLong", 320, 9600, qs=16, ts=16, qt=600, tt=5400, shrinktime="10s")],
     },
     "C06": {
         "title": "Healing from an archive restores any damaged directory to the signed build",
